@@ -48,6 +48,7 @@ package store
 //@   modifies nothing
 //@ trusted func (s Store) Merge(ctx context.Context, other node.Group)
 //@   requires SpecWFGroup(other)
+//@   ensures  SpecIState[s].Nodes != nil && __alloc(SpecIState[s].Nodes)
 //@   ensures  forall k node.Key :: __in(SpecIState[s].Nodes, k) == (old(__in(SpecIState[s].Nodes, k)) || __in(other, k))
 //@   ensures  forall k node.Key :: __in(other, k) && (!old(__in(SpecIState[s].Nodes, k)) || other[k].Heartbeat.OlderThan(old(SpecIState[s].Nodes[k]).Heartbeat)) ==> SpecIState[s].Nodes[k] == other[k]
 //@   ensures  forall k node.Key :: old(__in(SpecIState[s].Nodes, k)) && !(__in(other, k) && other[k].Heartbeat.OlderThan(old(SpecIState[s].Nodes[k]).Heartbeat)) ==> SpecIState[s].Nodes[k] == old(SpecIState[s].Nodes[k])
